@@ -28,6 +28,7 @@ RULE += (' Also: exits answering an exception with an object whose truth value c
 RULE += (' Also: what __(a)enter__ gives is falsy and awaitable (handed on untouched).')
 RULE += (" Also: histories with raising exits (an unwind ending in an exit's failure, then the same stack used again).")
 RULE += (' Also: exits failing with a falsy exception instance.')
+RULE += (' Also: a manager whose enter calls pop_all() on the stack it is being entered on; the same exit / manager registered twice.')
 ASSUMPTIONS = ["nested async with/with statements of the running interpreter are the reference for routing",
                "__context__ chains are not compared"]
 EXHAUSTIVE_SUBSPACES = 'all 16842 stacks of <= 3 entries x block outcome; all histories of length <= 4 (thorough: 5) over 8 operations'
@@ -96,7 +97,7 @@ def cases(tier, seed, shard, nshards):
     # histories: enumerated up to length 4 over a small alphabet, random beyond
     alphabet = [["reg", "acm"], ["reg", "cb"], ["aclose", 0], ["pop_all", 0], ["block", 0, False], ["block", 0, True],
                 ["enter_fail", 0], ["aclose", 1], ["reg", "popper"], ["aclose", 0, "except"], ["reg", "enterreg"],
-                ["reg", "enterreg_fail"], ["reg", "raiser"]]
+                ["reg", "enterreg_fail"], ["reg", "raiser"], ["reg", "enterpop"], ["reg", "dup_apush"]]
     maxlen = 4 if tier == "quick" else 5
     for n in range(1, maxlen + 1):
         for hist in itertools.product(alphabet, repeat=n):
@@ -113,7 +114,9 @@ def cases(tier, seed, shard, nshards):
                 ops.append(["reg", "popper", k])
                 nstacks += 1  # a stack is created when (if) the popper runs; indices beyond are folded to 0
             elif r < 0.4:
-                ops.append(["reg", rng.choice(KINDS + ["enterreg", "enterreg_fail", "raiser", "raiser"]), k])
+                ops.append(["reg", rng.choice(KINDS + ["enterreg", "enterreg_fail", "raiser", "raiser", "enterpop", "enterpop_sync", "dup_apush", "dup_spush", "dup_acm"]), k])
+                if ops[-1][1].startswith("enterpop"):
+                    nstacks += 1
             elif r < 0.5:
                 ops.append(["enter_fail", k])
             elif r < 0.65:
@@ -568,6 +571,39 @@ def exec_history(ops, factory):
                             log.append(("enter-raised", x.n))
                         per_op.append([ev for ev in log[mark:] if ev[0] in ("exit", "cb", "enter-raised", "block-raised", "op-raised")])
                         continue
+                    if kind in ("enterpop", "enterpop_sync"):
+                        # a manager that, WHILE it is being entered, moves everything registered so far to a new stack
+                        # (handing the resources acquired up to here to someone else): its own exit is registered
+                        # afterwards, on what the stack holds THEN - it belongs to the stack it was entered on
+                        cm_id = nid
+                        nid += 1
+
+                        class PopDuringEnter:
+                            async def __aenter__(self, _k=k):
+                                stacks.append(stacks[_k].pop_all())
+                                return self
+
+                            async def __aexit__(self, et, ev, tb, _i=cm_id):
+                                log.append(("exit", _i, None if ev is None else getattr(ev, "n", type(ev).__name__),
+                                            None if et is None else et.__name__))
+                                return False
+
+                        class PopDuringEnterSync:
+                            def __enter__(self, _k=k):
+                                stacks.append(stacks[_k].pop_all())
+                                return self
+
+                            def __exit__(self, et, ev, tb, _i=cm_id):
+                                log.append(("exit", _i, None if ev is None else getattr(ev, "n", type(ev).__name__),
+                                            None if et is None else et.__name__))
+                                return False
+
+                        if kind == "enterpop":
+                            await stacks[k].enter("acm", PopDuringEnter())
+                        else:
+                            await stacks[k].enter("scm", PopDuringEnterSync())
+                        per_op.append([ev for ev in log[mark:] if ev[0] in ("exit", "cb", "enter-raised", "block-raised", "op-raised")])
+                        continue
                     if kind == "popper":
                         # a callback that, while its stack unwinds, moves everything still registered to a new stack
                         def popper(*a, _k=k, _i=nid, **kw):
@@ -579,6 +615,14 @@ def exec_history(ops, factory):
                         # an exit that fails: the unwind it belongs to ends by propagating ITS exception - and the
                         # stack object stays as usable afterwards as any other
                         await stacks[k].enter("acm", mk_entry("acm", "raise", nid, log, 0, 0))
+                    elif kind.startswith("dup_"):
+                        # the SAME exit function / manager object registered twice: two registrations, two runs
+                        ent = mk_entry(kind[4:], "falsy", nid, log, 0, 0)
+                        for _ in range(2):
+                            if kind == "dup_acm":
+                                await stacks[k].enter("acm", ent)
+                            else:
+                                stacks[k].push_kind(kind[4:], ent, nid)
                     else:
                         ent = mk_entry(kind, "falsy", nid, log, 0, 0)
                         if kind in ("acm", "scm"):
@@ -655,9 +699,16 @@ def model_history(ops):
             else:
                 ran.append(("enter-raised", "enter"))
             nid += 2
+        elif op[0] == "reg" and op[1] in ("enterpop", "enterpop_sync"):
+            k = op[2] if len(op) > 2 and op[2] < len(pending) else 0
+            pending.append(pending[k])
+            pending[k] = [(nid, "acm", k)]
+            nid += 1
         elif op[0] == "reg":
             k = op[2] if len(op) > 2 and op[2] < len(pending) else 0
             pending[k].append((nid, op[1], k))
+            if op[1].startswith("dup_"):
+                pending[k].append((nid, op[1], k))
             nid += 1
         elif op[0] == "enter_fail":
             ran.append(("enter-raised", "enter"))
